@@ -65,26 +65,40 @@ type c25Case struct {
 
 // ---------------------------------------------------------------- fake stream
 
+// c25Msg is what the client would hold after receiving one message: copied
+// out of the message while Send runs, because the chunker reuses its buffer
+// once Send returns.
+type c25Msg struct {
+	files    []string
+	sizes    []int
+	stats    zoekt.Stats
+	hasStats bool
+}
+
 type c25Stream struct {
 	grpc.ServerStream // nil: only Send and Context are used by the pipeline
-	msgs              []*webserverv1.StreamSearchResponse
+	msgs              []c25Msg
+	buf               []byte
 	err               error
 }
 
 func (s *c25Stream) Context() context.Context { return context.Background() }
 
 func (s *c25Stream) Send(m *webserverv1.StreamSearchResponse) error {
-	b, err := proto.Marshal(m)
+	// serialise, as the transport would (into a reused buffer)
+	b, err := proto.MarshalOptions{}.MarshalAppend(s.buf[:0], m)
 	if err != nil {
 		s.err = fmt.Errorf("message %d is not serialisable: %v", len(s.msgs), err)
 		return err
 	}
-	c := new(webserverv1.StreamSearchResponse)
-	if err := proto.Unmarshal(b, c); err != nil {
-		s.err = err
-		return err
+	s.buf = b
+	chunk := m.GetResponseChunk()
+	msg := c25Msg{hasStats: chunk.GetStats() != nil, stats: zoekt.StatsFromProto(chunk.GetStats())}
+	for _, f := range chunk.GetFiles() {
+		msg.files = append(msg.files, string(f.GetFileName()))
+		msg.sizes = append(msg.sizes, proto.Size(f))
 	}
-	s.msgs = append(s.msgs, c)
+	s.msgs = append(s.msgs, msg)
 	return nil
 }
 
@@ -144,6 +158,8 @@ func c25AddStats(sum map[string]int64, s zoekt.Stats, times int64) {
 
 // ---------------------------------------------------------------- run
 
+var c25Zeros = make([]byte, 2<<20)
+
 type c25Facts struct {
 	files, msgs      int
 	run100           bool // >= 100 consecutive stats-only events
@@ -184,7 +200,7 @@ func runC25(c c25Case) (facts c25Facts, err error) {
 				fm := zoekt.FileMatch{
 					FileName:   name,
 					Repository: "r",
-					Content:    make([]byte, f.Size),
+					Content:    c25Zeros[:f.Size], // shared, never written
 				}
 				for l := 0; l < f.Lines; l++ {
 					fm.LineMatches = append(fm.LineMatches, zoekt.LineMatch{Line: []byte("line"), LineNumber: l + 1,
@@ -236,20 +252,19 @@ func runC25(c c25Case) (facts c25Facts, err error) {
 	var delivered []string
 	got := map[string]int64{}
 	for i, m := range stream.msgs {
-		chunk := m.GetResponseChunk()
 		total := 0
-		for _, f := range chunk.GetFiles() {
-			delivered = append(delivered, string(f.GetFileName()))
-			total += proto.Size(f)
+		for j, f := range m.files {
+			delivered = append(delivered, f)
+			total += m.sizes[j]
 		}
 		// oracle 2: size budget
-		if len(chunk.GetFiles()) > 1 && total >= c25Budget {
-			return facts, kit.Fail("budget", "message %d carries %d files with %d bytes in total (budget %d); only a single oversized file may exceed it", i, len(chunk.GetFiles()), total, c25Budget)
+		if len(m.files) > 1 && total >= c25Budget {
+			return facts, kit.Fail("budget", "message %d carries %d files with %d bytes in total (budget %d); only a single oversized file may exceed it", i, len(m.files), total, c25Budget)
 		}
-		if len(chunk.GetFiles()) == 0 && chunk.GetStats() != nil && i+1 < len(stream.msgs) && len(stream.msgs[i+1].GetResponseChunk().GetFiles()) > 0 && stream.msgs[i+1].GetResponseChunk().GetStats() == nil {
+		if len(m.files) == 0 && m.hasStats && i+1 < len(stream.msgs) && len(stream.msgs[i+1].files) > 0 && !stream.msgs[i+1].hasStats {
 			facts.emptyFirstChunk = true
 		}
-		c25AddStats(got, zoekt.StatsFromProto(chunk.GetStats()), 1)
+		c25AddStats(got, m.stats, 1)
 	}
 	facts.files = len(producedFiles)
 	facts.msgs = len(stream.msgs)
@@ -404,7 +419,7 @@ func c25GenCase(rt *rapid.T) c25Case {
 				default:
 					f.Size = rapid.IntRange(300001, 2<<20).Draw(rt, "size")
 				}
-				if bulk+f.Size > 12<<20 { // keep a case below ~12 MiB of content
+				if bulk+f.Size > 8<<20 { // keep a case below ~8 MiB of content
 					f.Size = rapid.IntRange(1, 200).Draw(rt, "size")
 				}
 				bulk += f.Size
